@@ -228,12 +228,19 @@ def solve_one(job):
     oid, smt2, timeout_ms, portfolio = job
     if isinstance(smt2, tuple) and len(smt2) == 3:
         coi, light, full = smt2
-        r = solve_one((oid, coi, min(timeout_ms, 5000), portfolio))
+        r = solve_one((oid, coi, min(timeout_ms, 10000), portfolio))
         if r['status'] == 'unsat':
             r['variant'] = 'cone of influence'
             return r
         r2 = solve_one((oid, (light, full) if light is not None else full, timeout_ms, portfolio))
         r2['tried'] = r.get('tried', []) + r2.get('tried', [])
+        if r2['status'] == 'unknown' and timeout_ms > 5000:
+            # last resort: the small (cone-of-influence) query again with the whole budget
+            r3 = solve_one((oid, coi, timeout_ms, portfolio))
+            r3['tried'] = r2['tried'] + r3.get('tried', [])
+            if r3['status'] == 'unsat':
+                r3['variant'] = 'cone of influence (full budget)'
+                return r3
         return r2
     if isinstance(smt2, tuple):
         light, full = smt2
